@@ -57,8 +57,11 @@ CLAIMS = {
  "C15": ("Grammar-based generation of configurations with two independent printers (Caddyfile text, expected JSON) compared through the real caddyfile adapter; determinism of adapting, provisioning of the adapted JSON and the JSON load/serialise round trip are checked on the same configurations.",
          "Caddy's caddyfile adapter and httpcaddyfile global-option machinery; the expected JSON printer encodes the documented meaning of each option (an error there shows up as a false alarm, not as a missed defect).",
          "property-based testing (rapid) with a grammar-based generator; differential between two printers + round trip"),
+ "C14": ("For each of the 15 matchers with a wire definition, generated complete messages, single-field corruptions and filter configurations are judged by an independent three-valued reference predicate written from the protocol definition and the matcher's documentation (must match / must not match / unspecified); two-sided where the definition speaks.",
+         "The reference predicates are hand-written from the cited definitions (RFC 1928, SOCKS4, HAProxy PROXY protocol, RFC 1035 via miekg/dns for packing, [MS-RDPBCGR], WireGuard and OpenVPN packet layouts, module documentation); every disagreement was triaged against that text before it counted.",
+         "property-based testing (rapid) against per-protocol reference predicates"),
 }
-NOT_YET = "check not built yet in this session (planned, see DESIGN.md); not claimed until it is"
+NOT_YET = "check not built"
 
 def chk(pid):
     text, note, tech = CLAIMS[pid]
